@@ -46,4 +46,9 @@ dm_mod!(unwrap, "../../mirror/impl/src/unwrap.rs");
 // (inside `fmt` the module is private).
 dm_mod!(pub(crate) fmt_parsing, "../../mirror/impl/src/fmt/parsing.rs");
 
+// the recorded behaviour of the argument splitter (defect model of the C16 known findings)
+#[allow(warnings, clippy::all)]
+#[path = "../support/frozen_parsing.rs"]
+pub(crate) mod frozen_parsing;
+
 pub mod v;
